@@ -50,6 +50,9 @@ def gen_cases(tier, seed):
         if tier == 'quick' and i >= 4:
             break
         cases.append({'scenario': 'stalled-pipe', 'layout': layout, 'mode': mode, 'capacity': 2, 'seed': rng.randrange(1 << 30)})
+    # the slot is back by the time the result is: sequential callers with backpressure, the gather thread delayed after it completes a future
+    for i in range(4 if tier == 'quick' else 24):
+        cases.append({'scenario': 'slot-return', 'mode': 'sync' if i % 4 != 3 else 'async', 'capacity': [1, 1, 2, 1][i % 4], 'n': 120, 'seed': rng.randrange(1 << 30)})
     # the same bound while competing callers keep taking every freed slot: the waiter is woken again and again and loses each race
     for i in range(4 if tier == 'quick' else 24):
         cases.append({'scenario': 'wait-bound', 'contended': True, 'mode': 'sync' if i % 2 else 'async', 'capacity': 1 + (i // 2) % 2,
@@ -116,6 +119,8 @@ def run_case(case):
         return _exit_with_waiters(case, viol, obs, SV, real_threading, dr)
     if case['scenario'] == 'stalled-pipe':
         return _stalled_pipe(case, viol, obs, SV, real_threading, dr)
+    if case['scenario'] == 'slot-return':
+        return _slot_return(case, viol, obs, SV, real_threading, dr)
     if case['scenario'] == 'wait-bound':
         if case.get('contended'):
             return _wait_bound_contended(case, viol, obs, SV, real_threading, dr)
@@ -613,6 +618,80 @@ def _wait_bound_contended(case, viol, obs, SV, real_threading, dr):
     return {'violations': viol, 'obs': obs, 'nontrivial': box['hog_calls'] >= 5, 'sig': hash(('wait-bound-c', case['mode'], case['seed'])) & 0xFFFFFFFFFFFF,
             'sample': {'scenario': 'wait-bound-contended', 'mode': case['mode'], 'capacity': cap, 'short_request_outcome': repr(box.get('short'))[:120],
                        'waited_s': round(el, 3), 'competing_calls': box['hog_calls']}}
+
+
+def _slot_return(case, viol, obs, SV, real_threading, dr):
+    """"Every accepted request gives its slot back when its result emerges": one caller (or exactly `capacity` callers in lock step) issues
+    requests strictly one after the other with backpressure on.  Whoever holds a result must find its slot returned: backlog is 0 when the
+    caller looks, and the next request is never rejected.  The gather thread is delayed at every statement after it has completed a future."""
+    from mpservice.mpserver import AsyncServer, Server, ServerBacklogFull, ThreadServlet
+
+    cap = case['capacity']
+    servlet = ThreadServlet(ST.TagWorker, tag='A', num_threads=cap)
+    is_async = case['mode'] == 'async'
+    srv_cls = AsyncServer if is_async else Server
+    fz = schedfuzz.SchedFuzz(seed=case['seed'], p=0.0)
+    for pat in ("fut.data['t2'] = perf_counter()", 'q_notify.put(1)', 'fut.set_result(y)', 'fut.set_exception(y)'):
+        fz.add_site(srv_cls._gather_output, pat, prob=0.4, delay=0.002, where='before', name='gather:' + pat[:18])
+        fz.add_site(srv_cls._gather_output, pat, prob=0.4, delay=0.002, where='after', name='gather-after:' + pat[:18])
+    box = {'bad': []}
+    n = case['n']
+
+    def sync_run():
+        with Server(servlet, capacity=cap) as server:
+            with fz:
+                for i in range(n):
+                    plan = (('A', 'fail', None),) if i % 5 == 3 else ()
+                    try:
+                        server.call(('tok', 0, i, plan), timeout=20, backpressure=True)
+                    except ServerBacklogFull as e:
+                        box['bad'].append(('rejected', i, repr(e)))
+                        break
+                    except Exception:  # noqa: BLE001  (the planned failures)
+                        pass
+                    b = server.backlog
+                    obs['idle_checks'] += 1
+                    if b != 0:
+                        box['bad'].append(('backlog', i, b))
+                        break
+
+    async def async_run():
+        async with AsyncServer(servlet, capacity=cap) as server:
+            with fz:
+                for i in range(n):
+                    plan = (('A', 'fail', None),) if i % 5 == 3 else ()
+                    try:
+                        await server.call(('tok', 0, i, plan), timeout=20, backpressure=True)
+                    except ServerBacklogFull as e:
+                        box['bad'].append(('rejected', i, repr(e)))
+                        break
+                    except Exception:  # noqa: BLE001
+                        pass
+                    b = server.backlog
+                    obs['idle_checks'] += 1
+                    if b != 0:
+                        box['bad'].append(('backlog', i, b))
+                        break
+
+    try:
+        watch.run_bounded((lambda: asyncio.run(async_run())) if is_async else sync_run, 60, 'slot-return scenario')
+    except watch.Hang as h:
+        viol.append({'mech': 'backlog/hang', 'msg': 'slot-return scenario did not finish', 'stacks': h.stacks})
+        return {'violations': viol, 'obs': obs, 'exit_after': True}
+    finally:
+        SV.threading = real_threading
+        dr.uninstall()
+    obs['requests'] = obs['idle_checks']
+    obs['accepted'] = obs['idle_checks']
+    obs['slot_return_runs'] = 1
+    for kind, i, what in box['bad']:
+        if kind == 'rejected':
+            viol.append({'mech': 'backlog/rejected-although-not-full', 'msg': f'{case["mode"]} capacity {cap}, a single sequential caller: request #{i} was rejected with {what} although the caller holds the results of all earlier requests'})
+        else:
+            viol.append({'mech': 'backlog/slot-not-returned-when-result-emerges', 'msg': f'{case["mode"]} capacity {cap}, a single sequential caller: backlog is {what} right after request #{i} returned its result'})
+    st = fz.stats()
+    return {'violations': viol, 'obs': obs, 'nontrivial': True, 'sig': hash(('slot-return', case['mode'], cap, case['seed'])) & 0xFFFFFFFFFFFF, 'fuzz': st,
+            'sample': {'scenario': 'slot-return', 'mode': case['mode'], 'capacity': cap, 'calls': obs['idle_checks'], 'site_hits': st.get('site_hits')}}
 
 
 def _wait_bound(case, viol, obs, SV, real_threading, dr):
